@@ -127,13 +127,14 @@ SUBCHECKS = {
              "outcomes = distinct duty vectors",
         cases=U.cases, run=table_run,
         requires=("OpenPinch.analysis.gcc_manipulation:get_additional_GCCs", "OpenPinch.analysis.utility_targeting:get_utility_targets"),
-        bound=lambda t: "{0..3}^n n<=5, ladders <=2 levels" if t == "quick" else "{0..3}^n n<=6, ladders <=3 levels",
+        bound=lambda t: "{0..3}^n n<=5, ladders <=2 levels, isothermal / gliding / mixed" if t == "quick" else "{0..3}^n n<=6, ladders <=3 levels, isothermal / gliding / mixed, two contributions",
     ),
     "service": SubCheck(
         name="service",
         describe="pinch_analysis_service: utility duties on every Direct Integration and Total Process record",
         rule="case = stream multiset x zone labels x 7 utility sets; non-trivial = >=2 utilities on one side receive duty in some zone",
         cases=service_cases, run=service_run,
-        bound=lambda t: "multisets <=2 (K=4, dt=d/2) x <=2 zones x 7 utility sets" if t == "quick" else "multisets <=3 (K=4) x <=2 zones x 7 utility sets",
+        bound=lambda t: ("multisets <=2 (K=4, dt=d/2) x (one zone x 12 utility sets + two zones x 7 sets)" if t == "quick" else "multisets <=3 (K=4) x <=2 zones x 12 utility sets")
+        + " + pairs with unit-operation targeting on x 3 sets",
     ),
 }
